@@ -75,7 +75,11 @@ def _check_lookups(rows, queries, units, out, label):
                 bad(f'get_at_distance({qu} {un}) returned another row than the scan (index {exp_r})')
         # time look-ups
         expt = next((i for i, r in enumerate(rows) if r.time >= q), -1)
+        # mode and deviation omitted: the documented defaults are the strict mode and a deviation of 1 s
+        got_default = call(H.find_index_for_time_point, hr, q)
         got = call(H.find_index_for_time_point, hr, q, True)
+        if got_default != got:
+            bad(f'find_index_for_time_point({q}) with the mode omitted = {got_default}, with strictly_bigger_or_equal=True = {got} (the documented default)')
         n += 1
         if got != expt:
             bad(f'find_index_for_time_point({q}, strict) = {got}, scan finds {expt}')
